@@ -271,8 +271,8 @@ def argumentChecks : List Cls := [.TypeError, .ValueError]
 def raisedIn : Region → List Cls
   | .uipLoadData => raises .loadDataInputsToObject
   | .cellsModifierOnce => [.MalformedInputError]
-  | .cellsModifierMerge => (raises .cellModifierPushMerge).filter (fun c => !argumentChecks.contains c)
-  | .cellsBlankModifiers => (raises .cellModifierPushMerge).filter (fun c => !argumentChecks.contains c)
+  | .cellsModifierMerge => (raises .cellModifierMerge).filter (fun c => !argumentChecks.contains c)
+  | .cellsBlankModifiers => (raises .cellModifierPush).filter (fun c => !argumentChecks.contains c)
   | .cellsCellLoop => raises .cellUpdatePointers ++ raises .halfSpaceUpdatePointers ++ raises .unitHalfSpaceUpdatePointers
   | .uipSurfaceLoop => raises .surfaceUpdatePointers
   | .uipDataLoop => raises .materialUpdatePointers ++ raises .thermalUpdatePointers ++ raises .dataInputUpdatePointers
